@@ -418,6 +418,10 @@ def _fault_program(rng, position, nesting, err, prefix=None):
     mode = rng.choice(["activate", "activate", "launcher"])
     body = ["match %s()" % trig] + prefix + _nest(stmt, nesting) + ["send BadContinued()", "match NeverHappens()"]
     reactors = ["good", "goodother"] + [r for r in ("late", "peer") if rng.random() < 0.5]
+    if position in ("match-bad-action-event", "send-bad-action-event"):
+        # these positions START an action before the erroneous statement: `peer` (same interaction loop, sends an event on Go) would
+        # compete with that action and legitimately lose or win the conflict (C05) - not what this oracle is about
+        reactors = [r for r in reactors if r != "peer"]
     flows = [_flow("bad", body)]
     order = reactors + ["catcher", "bad"]
     rng.shuffle(order)
